@@ -29,6 +29,8 @@ import Mathlib.Algebra.Order.Field.Basic
 
 set_option linter.unusedSimpArgs false
 set_option linter.unusedVariables false
+set_option linter.unreachableTactic false
+set_option linter.unusedTactic false
 
 namespace Pandora.C02Kernels
 open Pandora Pandora.MC Pandora.PyExpr
@@ -115,10 +117,10 @@ theorem pointInterval_eq (nxL nxR k : Int) (sp : Nat) (hs : 0 < sp) :
   by_cases hk : k < 0
   · simp only [hk, not_true_eq_false, decide_true, decide_false, if_true, if_false, collapse, encPQ, Bool.or_eq_true,
       decide_eq_true_eq, Bool.false_eq_true, ite_true, ite_false]
-    split_ifs <;> first | rfl | (simp only [mc (nxL * sp), mc (nxR * sp), xc 0] at *; first | rfl | contradiction)
+    split_ifs <;> first | rfl | (simp only [mc (nxL * sp), mc (nxR * sp), xc 0] at * <;> first | rfl | contradiction)
   · simp only [hk, not_false_eq_true, decide_true, decide_false, if_true, if_false, collapse, encPQ, Bool.or_eq_true,
       decide_eq_true_eq, Bool.false_eq_true, ite_true, ite_false]
-    split_ifs <;> first | rfl | (simp only [mc (nxL * sp), mc (nxR * sp), xc 0] at *; first | rfl | contradiction)
+    split_ifs <;> first | rfl | (simp only [mc (nxL * sp), mc (nxR * sp), xc 0] at * <;> first | rfl | contradiction)
 
 /-- for an arbitrary rational disparity (the model is called on its reduced numerator and denominator) -/
 theorem pointInterval_eq_rat (nxL nxR : Int) (d : ℚ) :
